@@ -58,6 +58,7 @@ def worker(kp, job):
     n = len(g.headers)
     types_present = sorted(set(g.headers))
     records = []
+    session = []
     for _ in range(14):
         o = {}
         k = rng.randint(2, 3)
@@ -92,6 +93,37 @@ def worker(kp, job):
                     rec['viol'].append(('composition', f'options {optprops.fmt(o)}: line {k + 1} is {got_rows[k] if k < len(got_rows) else None}, re-encoding the extended export '
                                         f'made with the same selection gives {want_rows[k] if k < len(want_rows) else None}', {'text': text, 'options': o}))
         records.append(rec)
+        session.append((dict(o), rec))
+    # ONE Exporter object serving all these option sets in a row (fresh options each time, as dumps builds them), plus
+    # a spine-type query in between: each export is the export a fresh exporter gives for those options
+    try:
+        from kernpy.core.generic import Generic
+        exporter = kp.Exporter()
+        viol = []
+        TC_ = kp.TokenCategory
+        for k, (o, rec) in enumerate(session):
+            kw = {}
+            if 'spine_types' in o: kw['spine_types'] = list(o['spine_types'])
+            if 'spine_ids' in o: kw['spine_ids'] = list(o['spine_ids'])
+            if 'include' in o: kw['include'] = {TC_[c] for c in o['include']}
+            if 'exclude' in o: kw['exclude'] = {TC_[c] for c in o['exclude']}
+            if 'encoding' in o: kw['kern_type'] = kp.Encoding(o['encoding'])
+            try:
+                options = Generic.parse_options_to_ExportOptions(**kw)
+                got = 'ok:' + exporter.export_string(doc, options)
+            except Exception as e:
+                got = 'err:' + type(e).__name__
+            if k % 5 == 2:
+                try:
+                    exporter.get_spine_types(doc)
+                except Exception:
+                    pass
+            if got != rec['impl'] and not viol:
+                viol.append(('composition', f'one Exporter object serving several option sets: export {k + 1} ({optprops.fmt(o)}) differs from the export of a fresh exporter',
+                             {'text': text, 'options': o}))
+        records.append(engine.rec('exporter-session', viol=viol, kind='exporter-session', key=(text, 'exporter-session')))
+    except ImportError:
+        pass
     # explicit defaults = omission
     base = docs.impl_dumps(kp, doc)
     TC = kp.TokenCategory
@@ -128,7 +160,7 @@ def run(chk):
     n = core.budget(chk, full, 70, 500)
     chk.rule = ('generated documents x 14 combinations of two or three non-default options (subsets of spine ids / types, '
                 'include/exclude sets, one of six encodings) compared with the composed transformations of the generator\'s '
-                'description, plus 6 explicit-default variants; non-trivial = distinct (text, options)')
+                'description, plus 6 explicit-default variants, and the same option sets served by ONE Exporter object; non-trivial = distinct (text, options)')
     results = engine.pmap(worker, [(chk.seed, i) for i in range(n)])
     engine.settle(chk, results, model)
     chk.disagreements_checked = len(chk.broken)
